@@ -320,7 +320,7 @@ func main() {
 		return
 	}
 	f := lib.ParseFlags()
-	res := lib.NewResult("non-trivial — readiness: a consumer call is made before the issuer answers the initial request, or a reader is parked at the hook holding the read lock, or Run is held between close(readyCh) and Unlock; renewal: at least two issuer requests (a renewal or retry happened); bundle source: a reader or Watch call is made before the source is up. COMPLETE ENUMERATIONS (every run): all orders of first calls of Run/issuer answer/GetX509SVID/Ready for the listed (gets, readys) shapes x issuer ok/fail x {readers parked, not parked, Run held}; all orders of first calls of Run/file appearing/bundle/anchors/watch for the listed shapes; renewal small scope = every script over {short, past-half-life, fail} and every step sequence over {5 s, 10 s, 60 s, 1 h, exact wake} up to the tier's depth; plus the fixed lists. SEEDED RANDOM (not exhaustive): random readiness op sequences, random renewal scenarios, random bundle-source scenarios — hence exhaustive=false overall. traces_validated_against_impl counts model queries: one per executed scenario (its observed trace / run compared with the Lean driver) plus the 3 corpus traces recorded on the pre-fix tree (checked against both model variants but not executions, so it exceeds evaluations by 3)")
+	res := lib.NewResult("non-trivial — readiness: a consumer call is made before the issuer answers the initial request, or a reader is parked at the hook holding the read lock, or Run is held between close(readyCh) and Unlock; renewal: at least two issuer requests (a renewal or retry happened); bundle source: a reader or Watch call is made before the source is up. COMPLETE ENUMERATIONS (every run): all orders of first calls of Run/issuer answer/GetX509SVID/Ready for the listed (gets, readys) shapes x issuer ok/fail x {readers parked, not parked, Run held}; all orders of first calls of Run/file appearing/bundle/anchors/watch for the listed shapes; renewal small scope = every script over {short, past-half-life, fail, fail with an error wrapping context.DeadlineExceeded} and every step sequence over {5 s, 10 s, 60 s, 1 h, exact wake} up to the tier's depth; the error-kind family = every error kind of errkinds.go (plain; wrapping / joining / custom Is / Unwrap of context.Canceled and context.DeadlineExceeded; the bare sentinels; the Err() of a child context the issuer created itself and waited for; look-alikes) x renewal index 1..P x 1..M consecutive failures with exact wakes, x coarse steps, x held answers, x as the initial fetch, x as the trust-anchor source's error, while Run's context stays alive; plus the fixed lists. SEEDED RANDOM (not exhaustive): random readiness op sequences, random renewal scenarios, random bundle-source scenarios — hence exhaustive=false overall. traces_validated_against_impl counts model queries: one per executed scenario (its observed trace / run compared with the Lean driver) plus the 3 corpus traces recorded on the pre-fix tree (checked against both model variants but not executions, so it exceeds evaluations by 3)")
 	if f.Work == "" {
 		f.Work, _ = os.MkdirTemp("", "c19-")
 		defer os.RemoveAll(f.Work)
@@ -445,6 +445,14 @@ func main() {
 	r.n = 4
 	for _, sc := range fixedRenew() {
 		r.doRenew(sc, "fixed")
+	}
+	// issuer errors of every kind at every renewal index while Run's context is alive
+	maxP, maxM := 3, 2
+	if f.Tier == "thorough" || f.Search {
+		maxP, maxM = 5, 4
+	}
+	for _, sc := range errKindRenew(maxP, maxM) {
+		r.doRenew(sc, "error-kinds")
 	}
 	depth := 2
 	if f.Tier == "thorough" || f.Search {
